@@ -450,19 +450,30 @@ def progress_direct(rng, cfg, n_cmd=2):
             c.deliver(ticks[0])
     drain()
     cmds = []
+    late_acks = rng.random() < 0.4        # acks reordered across slots: every ack of a later slot first
+    if late_acks:
+        n_cmd = rng.choice((2, 3))
     for k in range(n_cmd):
         leader = c.node(who)
         if not leader.is_leader:
             break
         cmds.append(k + 1)
         c.submit(who, k + 1)
-        if rng.random() < 0.5:
+        if not late_acks and rng.random() < 0.5:
             drain()
+    if late_acks:
+        # Accepts arrive in slot order; the Accepted replies reach the leader latest slot first
+        for slot in sorted({m["slot"] for _, m in c.pool if m["t"] == "accept"}):
+            for i in [i for i, (_, m) in enumerate(c.pool) if m["t"] == "accept" and m["slot"] == slot][::-1]:
+                c.deliver(i)
+        for slot in sorted({m["slot"] for _, m in c.pool if m["t"] == "accepted"}, reverse=True):
+            for i in [i for i, (_, m) in enumerate(c.pool) if m["t"] == "accepted" and m["slot"] == slot][::-1]:
+                c.deliver(i)
     drain()
     for _ in range(3):
         tick()
         drain()
-    return c, {"cfg": cfg, "leader": who, "cmds": cmds}, cmds
+    return c, {"cfg": cfg, "leader": who, "cmds": cmds, "late_acks": late_acks}, cmds
 
 
 # ---------------------------------------------------------------------------
